@@ -281,8 +281,11 @@ def _clean_room(members, queries):
         mem = members[mk]
         p = objectives.make_shipped({"family": "shipped", **mem})
         fv = FunctionValue() if fid is None else FunctionValue(FunctionType.CONSTRAINT, fid)
-        r = p.Calculate(Point(np.array(pt, dtype=np.double), []), fv)
-        out[(mk, tuple(pt), fid)] = float(r.value)
+        try:
+            r = p.Calculate(Point(np.array(pt, dtype=np.double), []), fv)
+            out[(mk, tuple(pt), fid)] = float(r.value)
+        except Exception:
+            out[(mk, tuple(pt), fid)] = None      # (an out-of-box request this family refuses: not used)
     return out, structured
 
 
@@ -327,8 +330,19 @@ class C15(SmallSuite):
                     pts[mk].append({"kind": "frac", "t": [float("%.6g" % rng.random()) for _ in range(5)]})
                 elif u < 0.8:
                     pts[mk].append({"kind": "special", "i": rng.randrange(40)})
+                elif u < 0.86:
+                    # a request outside the box (a caller's slip; the generators answer it with a formula or penalty value):
+                    # it must not change what the instance answers afterwards
+                    t = [float("%.6g" % rng.random()) for _ in range(5)]
+                    t[rng.randrange(5)] = rng.choice([-0.25, 1.25, 1.01, -3.0])
+                    t[0] = rng.choice([-0.25, 1.25, t[0]])
+                    pts[mk].append({"kind": "frac", "t": t, "outside": True})
                 else:
                     pts[mk].append({"kind": "frac", "t": [float(rng.choice([0, 1])) for _ in range(5)]})
+        gm = [k for k in members if members[k]["cls"] == "Grishagin"]
+        if len(gm) == 2 and rng.random() < 0.6:
+            n0 = members[gm[0]]["args"][0]
+            members[gm[1]]["args"] = [min(100, max(1, n0 + rng.choice([-1, 1, 1])))]     # neighbours in the generator's sequence
         if rng.random() < 0.5:
             # sibling members of one class (same box) are asked about exactly the same points
             first = {}
@@ -432,6 +446,10 @@ class C15(SmallSuite):
                     mk = plan_slot_member(plan, op["slot"])
                     pt = pts[mk][op["pt"]]
                     fid = op.get("fid")
+                    if clean.get((mk, tuple(pt), fid)) is None:
+                        continue
+                    if plan["points"][mk][op["pt"]].get("outside"):
+                        rep.probes["out_of_box_requests"] += 1
                     if op.get("buf"):
                         arr = bufs.get(op["slot"])
                         if arr is None:
